@@ -27,10 +27,12 @@ ANCHOR_FILES = ['spatialpandas/geometry/_algorithms/measures.py',
                 'spatialpandas/geometry/multipolygon.py', 'spatialpandas/geometry/line.py',
                 'spatialpandas/geometry/multiline.py', 'spatialpandas/geometry/multipoint.py',
                 'spatialpandas/geometry/point.py', 'spatialpandas/geometry/ring.py']
-TRUSTED = ['float64 evaluation of compute_area on integer-valued coordinates is exact '
-           '(validated: 2*area integral and equal to the model on every case)',
-           'float summation / sqrt rounding of compute_line_length is outside the model: '
-           'validated to 1e-12 relative against math.fsum of math.sqrt of the model\'s terms',
+TRUSTED = ['numba\'s compiled float64 arithmetic is IEEE-754 binary64 in source order (d*d for **2, sqrtsd, no '
+           'FMA, strict left-to-right accumulation): validated bit-for-bit, no tolerance, against the '
+           'primitive-float model coq/Model/FloatMeasures.v on every run (harness/c14_float.py); exactness '
+           'of the float area on integer coordinates is a theorem (f_area_exact_int)',
+           'Coq.Floats.FloatAxioms / Uint63 specifications of the kernel\'s primitive floats and integers '
+           '(standard-library axioms used by the f_* theorems), Flocq 4.1.0',
            'pyarrow buffers() of arr.__arrow_array__() (harness/c14_util.py export_la / decode)']
 
 IMPORTS = 'Model.Num Model.Arrow Model.Measures Spec.MeasuresSpec Proofs.MeasuresMapProofs'
@@ -781,9 +783,21 @@ def run(rep):
                               'scalar_boundary': len(ctx.sb.cases),
                               'internal_extras': len(ctx.arr_int.cases) + len(ctx.sc_int.cases)
                               + len(ctx.bd_int.cases) + len(ctx.sb_int.cases)}
+    # float part: bit-exact binary64 model (Model/FloatMeasures.v), no tolerance
+    try:
+        from . import c14_float
+        c14_float.run_float_measures(rep)
+    except C.ModelUnavailable:
+        raise
+    except Exception as e:
+        rep.violation(f'harness-error:float-measures:{type(e).__name__}',
+                      f'the float-measure correspondence check could not run: {e}', {})
 
 
 def replay(rep, rp):
+    if rp.get('float_measures'):
+        from . import c14_float
+        return c14_float.replay(rep, rp)
     ctx = Ctx()
     els = U.unjson(rp['elements'])
     if rp.get('history'):
